@@ -244,75 +244,93 @@ def aerostruct_level(rep, tier, timeout):
     from symoas.sym import substitute
 
     cfgl = [("symL_2x3", 2, 3, True)] + ([("full_3x3", 3, 3, False), ("symL_3x4", 3, 4, True)] if tier == "thorough" else [])
-    for (cn, nx, ny, symm, compressible) in [c + (False,) for c in cfgl] + [cfgl[0] + (True,)]:
-        s = K.surface(nx, ny, symm)
-        s.update({"thickness_cp": np.array([0.1, 0.2]), "twist_cp": np.zeros(2)})
-        G = groups.aerostruct_symbolic(s, compressible=compressible)
+    runs = [c + (False, 1) for c in cfgl] + [cfgl[0] + (True, 1)]
+    # two structural surfaces of the same mesh shape whose spars sit at different chord fractions: each surface's loads are
+    # transferred with its own spar line
+    runs.append(("symL_2x2 x 2 surfaces", 2, 2, True, False, 2))
+    for (cn, nx, ny, symm, compressible, nsurf) in runs:
+        surfs = []
+        for si in range(nsurf):
+            sx = K.surface(nx, ny, symm, name="wing" if si == 0 else "tail")
+            sx.update({"thickness_cp": np.array([0.1, 0.2]), "twist_cp": np.zeros(2)})
+            if si:
+                sx["fem_origin"] = 0.75
+                sx["mesh"] = sx["mesh"] + np.array([6.0, 0.0, 0.5])
+            surfs.append(sx)
+        G = groups.aerostruct_symbolic(surfs if nsurf > 1 else surfs[0], compressible=compressible)
         G.encode(rep)
         if compressible:
             cn += " compressible"
         pre = "AS_point_0.coupled."
-        loads = G.computed_for_guess[pre + "wing_loads.loads"]
-        F = G.get(pre + "aero_states.wing_sec_forces")  # the physical sectional forces the states group publishes
-        dm = G.vals[pre + "wing.def_mesh.displacement_transfer.def_mesh"]
-        mesh = G.vals["wing.geometry.mesh.rotate.mesh"] if "wing.geometry.mesh.rotate.mesh" in G.vals else None
         p = symarray("p", (3,))
-        w = S(s["fem_origin"])
-        spts = [[(ONE - w) * dm[0, j, k] + w * dm[nx - 1, j, k] for k in range(3)] for j in range(ny)]
-        Fn = vsum([[loads[j, k] for k in range(3)] for j in range(ny)])
-        Mn = vsum([[loads[j, 3 + k] for k in range(3)] for j in range(ny)] +
-                  [cross([spts[j][k] - p[k] for k in range(3)], [loads[j, k] for k in range(3)]) for j in range(ny)])
-        Fp = vsum([[F[i, j, k] for k in range(3)] for i in range(nx - 1) for j in range(ny - 1)])
-        Mp = []
-        for i in range(nx - 1):
-            for j in range(ny - 1):
-                a = [S(0.5) * (S(0.75) * dm[i, j, k] + S(0.25) * dm[i + 1, j, k]) + S(0.5) * (S(0.75) * dm[i, j + 1, k] + S(0.25) * dm[i + 1, j + 1, k]) for k in range(3)]
-                Mp.append(cross([a[k] - p[k] for k in range(3)], [F[i, j, k] for k in range(3)]))
-        Mp = vsum(Mp)
-        obs = idents("AerostructPoint loads: sum F", Fn, Fp, assume=G.assumed, meta={"family": "structural loads of the coupled group carry the total aerodynamic force of the same group"})
-        obs += idents("AerostructPoint loads: sum M about p", Mn, Mp, assume=G.assumed, meta={"family": "structural loads of the coupled group carry the total aerodynamic moment about any point (deformed mesh of the same group)"})
-        # mesh-node forces exported to external solvers: same resultant as the panel forces of the same group
-        mpf = G.get(pre + "aero_states.wing_mesh_point_forces")
-        Fm = vsum([[mpf[i, j, k] for k in range(3)] for i in range(nx) for j in range(ny)])
-        Mm = vsum([cross([dm[i, j, k] - p[k] for k in range(3)], [mpf[i, j, k] for k in range(3)]) for i in range(nx) for j in range(ny)])
-        obs += idents("AerostructPoint mesh-node forces: sum F", Fm, Fp, assume=G.assumed, meta={"family": "mesh-node forces of the coupled group carry the total aerodynamic force of the same group"})
-        obs += idents("AerostructPoint mesh-node forces: sum M about p", Mm, Mp, assume=G.assumed, meta={"family": "mesh-node forces of the coupled group carry the total aerodynamic moment about any point"})
-        if mesh is not None:
-            flat = list(dm.ravel())
-            zero = {v.args[0]: ZERO for x in flat for v in __import__("symoas.sym", fromlist=["variables"]).variables([x]) if ".disp_aug[" in v.args[0]}
-            z = substitute(flat, zero)
-            for idx in np.ndindex(*dm.shape):
-                obs.append(oblig.Ob("AerostructPoint def_mesh at zero state %s" % list(idx), lhs=z[dm[idx].nid], rhs=mesh[idx], assume=G.assumed,
-                                    meta={"family": "zero structural state leaves the aerodynamic mesh of the coupled group unchanged"}))
+        obs = []
+        for s in surfs:
+            nm = s["name"]
+            tag = "" if nsurf == 1 else " [%s]" % nm
+            loads = G.computed_for_guess[pre + "%s_loads.loads" % nm]
+            F = G.get(pre + "aero_states.%s_sec_forces" % nm)  # the physical sectional forces the states group publishes
+            dm = G.vals[pre + "%s.def_mesh.displacement_transfer.def_mesh" % nm]
+            mesh = G.vals["%s.geometry.mesh.rotate.mesh" % nm] if "%s.geometry.mesh.rotate.mesh" % nm in G.vals else None
+            w = S(s["fem_origin"])
+            spts = [[(ONE - w) * dm[0, j, k] + w * dm[nx - 1, j, k] for k in range(3)] for j in range(ny)]
+            Fn = vsum([[loads[j, k] for k in range(3)] for j in range(ny)])
+            Mn = vsum([[loads[j, 3 + k] for k in range(3)] for j in range(ny)] +
+                      [cross([spts[j][k] - p[k] for k in range(3)], [loads[j, k] for k in range(3)]) for j in range(ny)])
+            Fp = vsum([[F[i, j, k] for k in range(3)] for i in range(nx - 1) for j in range(ny - 1)])
+            Mp = []
+            for i in range(nx - 1):
+                for j in range(ny - 1):
+                    a = [S(0.5) * (S(0.75) * dm[i, j, k] + S(0.25) * dm[i + 1, j, k]) + S(0.5) * (S(0.75) * dm[i, j + 1, k] + S(0.25) * dm[i + 1, j + 1, k]) for k in range(3)]
+                    Mp.append(cross([a[k] - p[k] for k in range(3)], [F[i, j, k] for k in range(3)]))
+            Mp = vsum(Mp)
+            obs += idents("AerostructPoint loads%s: sum F" % tag, Fn, Fp, assume=G.assumed, meta={"family": "structural loads of the coupled group carry the total aerodynamic force of the same group"})
+            obs += idents("AerostructPoint loads%s: sum M about p" % tag, Mn, Mp, assume=G.assumed, meta={"family": "structural loads of the coupled group carry the total aerodynamic moment about any point (deformed mesh of the same group)"})
+            # mesh-node forces exported to external solvers: same resultant as the panel forces of the same group
+            mpf = G.get(pre + "aero_states.%s_mesh_point_forces" % nm)
+            Fm = vsum([[mpf[i, j, k] for k in range(3)] for i in range(nx) for j in range(ny)])
+            Mm = vsum([cross([dm[i, j, k] - p[k] for k in range(3)], [mpf[i, j, k] for k in range(3)]) for i in range(nx) for j in range(ny)])
+            obs += idents("AerostructPoint mesh-node forces%s: sum F" % tag, Fm, Fp, assume=G.assumed, meta={"family": "mesh-node forces of the coupled group carry the total aerodynamic force of the same group"})
+            obs += idents("AerostructPoint mesh-node forces%s: sum M about p" % tag, Mm, Mp, assume=G.assumed, meta={"family": "mesh-node forces of the coupled group carry the total aerodynamic moment about any point"})
+            if mesh is not None:
+                flat = list(dm.ravel())
+                zero = {v.args[0]: ZERO for x in flat for v in __import__("symoas.sym", fromlist=["variables"]).variables([x]) if ".disp_aug[" in v.args[0]}
+                z = substitute(flat, zero)
+                for idx in np.ndindex(*dm.shape):
+                    obs.append(oblig.Ob("AerostructPoint def_mesh%s at zero state %s" % (tag, list(idx)), lhs=z[dm[idx].nid], rhs=mesh[idx], assume=G.assumed,
+                                        meta={"family": "zero structural state leaves the aerodynamic mesh of the coupled group unchanged"}))
         run_obligations(rep, "real AerostructPoint group: transfer [%s]" % cn, obs, timeout, levels=(1, 2), family=lambda ob: "AerostructPoint: " + ob.meta["family"],
-                        replay=lambda ob, env, s=s, compressible=compressible: replay_aerostruct_transfer(s, compressible))
+                        replay=lambda ob, env, surfs=surfs, compressible=compressible: replay_aerostruct_transfer(surfs, compressible))
 
 
-def replay_aerostruct_transfer(s, compressible):
+def replay_aerostruct_transfer(surfs, compressible):
     """the real coupled model on floats: resultants of structural loads and mesh-node forces against the panel forces"""
     from props import groups
 
-    prob = groups.aerostruct_problem(s, compressible=compressible, vals={"alpha": 4.0, "beta": 3.0, "Mach_number": 0.6, "v": 200.0, "rho": 0.8, "W0": 2000.0, "R": 2.0e6})
+    surfs = surfs if isinstance(surfs, (list, tuple)) else [surfs]
+    prob = groups.aerostruct_problem(list(surfs) if len(surfs) > 1 else surfs[0], compressible=compressible,
+                                     vals={"alpha": 4.0, "beta": 3.0, "Mach_number": 0.6, "v": 200.0, "rho": 0.8, "W0": 2000.0, "R": 2.0e6})
     prob.run_model()
     pre = "AS_point_0.coupled."
-    F = np.array(prob.get_val(pre + "aero_states.wing_sec_forces"), dtype=float)
-    dm = np.array(prob.get_val(pre + "wing.def_mesh"), dtype=float)
-    mpf = np.array(prob.get_val(pre + "aero_states.wing_mesh_point_forces"), dtype=float)
-    loads = np.array(prob.get_val(pre + "wing_loads.loads"), dtype=float)
-    w = s["fem_origin"]
-    pp = np.array([0.3, -0.7, 0.2])
-    a = 0.5 * (0.75 * dm[:-1, :-1] + 0.25 * dm[1:, :-1] + 0.75 * dm[:-1, 1:] + 0.25 * dm[1:, 1:])
-    Fp, Mp = F.sum(axis=(0, 1)), np.cross(a - pp, F).sum(axis=(0, 1))
-    sp = (1 - w) * dm[0] + w * dm[-1]
     bad = []
-    sc = max(1.0, np.abs(Fp).max())
-    scm = max(1.0, np.abs(Mp).max())
-    for lab, Fx, Mx in (("structural loads", loads[:, :3].sum(axis=0), loads[:, 3:].sum(axis=0) + np.cross(sp - pp, loads[:, :3]).sum(axis=0)),
-                        ("mesh-node forces", mpf.sum(axis=(0, 1)), np.cross(dm - pp, mpf).sum(axis=(0, 1)))):
-        if np.abs(Fx - Fp).max() > 1e-8 * sc:
-            bad.append("%s: total force %s vs panel forces %s" % (lab, np.round(Fx, 4), np.round(Fp, 4)))
-        if np.abs(Mx - Mp).max() > 1e-8 * scm:
-            bad.append("%s: total moment %s vs panel forces %s" % (lab, np.round(Mx, 4), np.round(Mp, 4)))
+    for s in surfs:
+        nm = s["name"]
+        F = np.array(prob.get_val(pre + "aero_states.%s_sec_forces" % nm), dtype=float)
+        dm = np.array(prob.get_val(pre + "%s.def_mesh" % nm), dtype=float)
+        mpf = np.array(prob.get_val(pre + "aero_states.%s_mesh_point_forces" % nm), dtype=float)
+        loads = np.array(prob.get_val(pre + "%s_loads.loads" % nm), dtype=float)
+        w = s["fem_origin"]
+        pp = np.array([0.3, -0.7, 0.2])
+        a = 0.5 * (0.75 * dm[:-1, :-1] + 0.25 * dm[1:, :-1] + 0.75 * dm[:-1, 1:] + 0.25 * dm[1:, 1:])
+        Fp, Mp = F.sum(axis=(0, 1)), np.cross(a - pp, F).sum(axis=(0, 1))
+        sp = (1 - w) * dm[0] + w * dm[-1]
+        sc = max(1.0, np.abs(Fp).max())
+        scm = max(1.0, np.abs(Mp).max())
+        for lab, Fx, Mx in (("structural loads", loads[:, :3].sum(axis=0), loads[:, 3:].sum(axis=0) + np.cross(sp - pp, loads[:, :3]).sum(axis=0)),
+                            ("mesh-node forces", mpf.sum(axis=(0, 1)), np.cross(dm - pp, mpf).sum(axis=(0, 1)))):
+            if np.abs(Fx - Fp).max() > 1e-8 * sc:
+                bad.append("%s %s: total force %s vs panel forces %s" % (nm, lab, np.round(Fx, 4), np.round(Fp, 4)))
+            if np.abs(Mx - Mp).max() > 1e-8 * scm:
+                bad.append("%s %s: total moment %s vs panel forces %s" % (nm, lab, np.round(Mx, 4), np.round(Mp, 4)))
     return bool(bad), ("compressible=%s: " % compressible) + ("; ".join(bad) or "resultants agree")
 
 
